@@ -7,6 +7,9 @@ package scheduler
 // TryLock-based look into the reader's table. No behaviour is changed.
 
 import (
+	"errors"
+	"fmt"
+	"sort"
 	"time"
 
 	"github.com/ErdemOzgen/blackdagger/internal/client"
@@ -51,4 +54,47 @@ func (r *VerifHotReader) Entry(name string, lockWait time.Duration) (d *dag.DAG,
 			return nil, false, false
 		}
 	}
+}
+
+// VerifReadAndRefuse builds the entry reader as scheduler.New does (start-up
+// scan), lets it compute its next-run table with the real Read(now), and then
+// asks every job -- the ones Read created for scheduled definitions and one
+// created with the real job creator for every definition of the table -- to
+// stop (the definition is not running) and to start (the history holds a run
+// that started after `now`): both must be refused by the job itself, so
+// nothing is ever started. Returns "" or what went differently.
+func VerifReadAndRefuse(dagsDir, workDir string, lg logger.Logger, cli client.Client, now time.Time) string {
+	er := newEntryReader(newEntryReaderArgs{
+		Client:     cli,
+		DagsDir:    dagsDir,
+		JobCreator: &jobCreatorImpl{WorkDir: workDir, Client: cli, Executable: "/bin/false"},
+		Logger:     lg,
+	})
+	ents, err := er.Read(now)
+	if err != nil {
+		return "entryReader.Read: " + err.Error()
+	}
+	var jobs []job
+	for _, e := range ents {
+		jobs = append(jobs, e.Job)
+	}
+	er.dagsLock.Lock()
+	var names []string
+	for n := range er.dags {
+		names = append(names, n)
+	}
+	sort.Strings(names)
+	for _, n := range names {
+		jobs = append(jobs, er.jobCreator.CreateJob(er.dags[n], now))
+	}
+	er.dagsLock.Unlock()
+	for _, j := range jobs {
+		if err := j.Stop(); !errors.Is(err, errJobIsNotRunning) {
+			return "job.Stop was not refused with errJobIsNotRunning: " + fmt.Sprint(err)
+		}
+		if err := j.Start(); !errors.Is(err, errJobFinished) {
+			return "job.Start was not refused with errJobFinished: " + fmt.Sprint(err)
+		}
+	}
+	return ""
 }
